@@ -81,11 +81,22 @@ Definition ctors : list string :=
 Definition known_waivers : list (string * string) :=
   [("encrypt.Filter.Process", "eventlogger.Event.Formatted")].
 
+(* lock order: a lock is only acquired (and a callback that may take it only runs) while every held lock ranks lower.
+   COPY (pseudo lock of the private event copy) < gated.Filter.l (held across Sender.Send) < encrypt.Filter.l (taken under COPY)
+   < Broker.lock < graph.thresholdLock (taken under Broker.lock by the setters); the remaining locks are never nested *)
+Definition rank_tbl (l : string) : nat :=
+  if String.eqb l "COPY" then 1
+  else if String.eqb l "gated.Filter.l" then 2
+  else if String.eqb l "encrypt.Filter.l" then 3
+  else if String.eqb l L_broker then 5
+  else if String.eqb l L_thr then 6
+  else 7.
+
 Definition infer_fuel := 12%nat.   (* call-graph depth; too small a value only produces complaints *)
 Definition mk (g : string -> guard) (ua : string -> list string) (w : list (string * string)) (pr : program) : contracts :=
   let tbl := infer infer_fuel ua pr [] in
   {| guard_of := g; requires := requires_tbl; acquires := fun f => assocd f tbl [];
-     user_acquires := ua; constructors := ctors; waived := w |}.
+     user_acquires := ua; constructors := ctors; waived := w; rank := rank_tbl |}.
 
 (* C12: lock protocol and callbacks only *)
 Definition contracts_C12 (pr : program) : contracts := mk (fun _ => GFree) user_acq [] pr.
